@@ -39,6 +39,10 @@ def alphabet(tier):
         {"s": "env", "op": "deliver", "m": "INBOX", "unseen": True},
         {"s": "env", "op": "deliver", "m": "INBOX", "unseen": False},
         {"s": "env", "op": "deliver", "m": "INBOX", "n": 2},
+        # the agent files the message under further sequences (rcvstore -sequence flagged -sequence replied)
+        {"s": "env", "op": "deliver", "m": "INBOX", "unseen": True, "seqs": ["flagged", "replied"]},
+        {"s": "env", "op": "latent", "m": "INBOX", "seqs": ["flagged"], "then": {"s": A, "op": "store", "set": "1", "mode": "+", "flags": "\\Answered"}},
+        {"s": "env", "op": "latent", "m": "INBOX", "unseen": False, "seqs": ["replied", "Draft"], "then": {"s": A, "op": "del", "set": "1"}},
         # a delivery within the second of the folder's mtime, one command, then the mtime advances
         {"s": "env", "op": "latent", "m": "INBOX", "then": {"s": A, "op": "store", "set": "1", "mode": "+", "flags": "\\Flagged"}},
         {"s": "env", "op": "latent", "m": "INBOX", "then": {"s": A, "op": "del", "set": "1"}},
@@ -70,7 +74,7 @@ def alphabet(tier):
 def s_scenarios():
     """Deliveries *inside* commands: the agent acts at any scheduling point of the command."""
     sel = [{"s": "A", "op": "select", "m": "INBOX"}, {"s": "B", "op": "select", "m": "INBOX"}]
-    env = [{"s": "env", "op": "deliver", "m": "INBOX", "unseen": True, "cids": ["dE1"]}]
+    env = [{"s": "env", "op": "deliver", "m": "INBOX", "unseen": True, "cids": ["dE1"], "seqs": ["flagged", "replied"]}]
     base = {"cfg_ref": ["vf.props.c13", "scfg", []], "loopopts": {"preempt_timers": False}, "prelude": sel, "env": env}
     out = []
     for name, a in [
